@@ -251,4 +251,20 @@ PROPS = {
         "assumptions": COMMON_ASSUME + ["interleavings at yield-point granularity (yield points sit at every lock boundary of msg.Box outside its critical sections)",
                                          "known finding L18 excludes, by generator switch, receive calls inside the check-to-store window during a Send on the same topic; three probe interleavings replay it on every run"],
     },
+    "C15": {
+        "module": "core", "pkg": "./checks", "level": "exploration",
+        "jobs": [
+            {"test": "TestC15", "quick": 6000, "thorough": 150000, "shards_thorough": 14},
+        ],
+        "rule": "Stateful against a reference model: msg.Box with MaxInFlightTopicsBySender in 2..4, GCExpire of 2..4 sweeps, hand-fed epoch ticker "
+                "and the bubble's virtual wall clock; rapid draws sequences of up to 60 (thorough 400) operations: receive bursts (1..103 messages, "
+                "crossing the per-sender limit of 100) of 3 senders on a sliding stream of topics (cumulatively many, few at a time), Send, advance "
+                "1..3 epochs, idle 5..12 epochs, pure GC triggers (Send on a fresh topic after a gap). Oracle: no panic; nothing invented or handed "
+                "twice; a message that the model says is within the limits (sender has at most limit-1 other topics that are neither started nor "
+                "certainly expired, fewer than 99 unhanded messages on that topic) is handed over by the next Send on its topic (or the final flush); "
+                "data of a never-started topic that is older than GCExpire and has seen two GC triggers more than GCExpire apart is not handed over "
+                "any more. Non-trivial = the sequence crosses a limit, exercises the expiry clause, or reuses a sender after finished/expired "
+                "topics. Distinct = hash of the whole sequence.",
+        "assumptions": COMMON_ASSUME + ["limits are judged with a tolerance: the model only demands acceptance strictly inside the limits and discarding only after a generous bound (two spaced GC triggers)"],
+    },
 }
